@@ -16,7 +16,7 @@ def kv (toks : List String) (k : String) : String :=
 
 def step (c impl : String) : String :=
   match fields c with
-  | ["c19", kind, _seed] =>
+  | "c19" :: kind :: _seed :: _ =>
     if impl.startsWith "PANIC" then
       specViol s!"panic in the request goroutine of a {kind} request: {(impl.drop 6).toString}"
     else if impl.startsWith "bad" || impl.startsWith "skipped" then "SKIP " ++ impl
